@@ -21,11 +21,11 @@ Norm(ev) == [ev EXCEPT !.op = [op |-> ev.op.op, a |-> ev.op.a, b |-> ev.op.b, c 
                                 xs |-> ev.op.xs, n |-> ev.op.n]]
 
 \* coverage counters next to the monitors': calls refused one past a limit / accepted exactly at a limit
-Extra == {"overcap_" \o f : f \in Flavours} \cup {"atlimit_" \o f : f \in Flavours}
+Extra == {"over_" \o n : n \in LimitNames} \cup {"at_" \o n : n \in LimitNames}
 Bump(c, g0, ev) ==
   IF ~Mine(g0, ev) THEN 0
-  ELSE IF c = "overcap_" \o g0.fl /\ OverCap(g0, ev.op) /\ ~Redundant(g0, ev.op) THEN 1
-  ELSE IF c = "atlimit_" \o g0.fl /\ AtLimit(g0, ev.op) THEN 1
+  ELSE IF \E n \in OverSet(g0, ev.op) : c = "over_" \o n THEN 1
+  ELSE IF \E n \in AtSet(g0, ev.op) : c = "at_" \o n THEN 1
   ELSE 0
 
 Init == /\ l = 1
